@@ -139,9 +139,11 @@ def named_pattern(w: Any, g: Any) -> Optional[str]:
     """recognise the shape of a difference so that a known defect has ONE signature"""
     if isinstance(w, ast.Lambda):
         return "lambda-not-rebuilt"
-    if isinstance(w, ast.Tuple) and len(w.elts) == 1 and _same(w.elts[0], g):
+    if isinstance(w, ast.Tuple) and len(w.elts) == 1 and isinstance(g, ast.AST) and not isinstance(g, ast.Tuple) \
+            and (type(g) is type(w.elts[0]) or isinstance(w.elts[0], (ast.Starred, ast.Lambda))):
         return "one-element-tuple-unwrapped"
-    if isinstance(w, ast.Starred) and _same(w.value, g):
+    if isinstance(w, ast.Starred) and isinstance(g, ast.AST) and not isinstance(g, ast.Starred) \
+            and (type(g) is type(w.value) or isinstance(w.value, (ast.Lambda, ast.Tuple))):
         return "star-dropped"
     if isinstance(w, ast.arguments) and isinstance(g, ast.arguments):
         moved = len(w.args) - len(g.args)
@@ -186,26 +188,52 @@ def _strip_nots(n: ast.AST) -> tuple[int, ast.AST]:
     return k, n
 
 
-def constraint_toplevel_class(want: ast.AST, got: ast.AST) -> Optional[tuple[str, str, str]]:
-    names = lambda n: {x.id for x in ast.walk(n) if isinstance(x, ast.Name)}  # noqa: E731
-    invented = sorted(names(got) - names(want))
-    if invented and any(isinstance(x, ast.IfExp) for x in ast.walk(want)):
-        # visitFormula_comparison unparses the LIST visitChildren returns for `X if C else Y`: one name `XCY`
-        return "formula-comparison-conditional-operand-garbled", _desc(want), f"invented name(s) {invented} in {_desc(got)}"
-    tw, tg = _tokens_without_parens(want), _tokens_without_parens(got)
-    if tw is None or tw != tg:
-        return None
+TOP_OPS = {ast.And: "and", ast.Or: "or"}
+
+
+def linearise(n: ast.AST, leaves: list, ops: list) -> str:
+    """in-order walk of the TOP-LEVEL skeleton of a formula (and / or / not / comparison / conditional
+    expression): operator tokens -> ops, maximal other sub-expressions -> leaves; returns the skeleton"""
+    if isinstance(n, ast.BoolOp):
+        parts = []
+        for k, v in enumerate(n.values):
+            if k:
+                ops.append(TOP_OPS[type(n.op)])
+            parts.append(linearise(v, leaves, ops))
+        return "(" + TOP_OPS[type(n.op)] + " " + " ".join(parts) + ")"
+    if isinstance(n, ast.UnaryOp) and isinstance(n.op, ast.Not):
+        ops.append("not")
+        return "(not " + linearise(n.operand, leaves, ops) + ")"
+    if isinstance(n, ast.Compare):
+        parts = [linearise(n.left, leaves, ops)]
+        for o, c in zip(n.ops, n.comparators):
+            ops.append(type(o).__name__)
+            parts.append(type(o).__name__ + " " + linearise(c, leaves, ops))
+        return "(cmp " + " ".join(parts) + ")"
+    if isinstance(n, ast.IfExp):
+        b = linearise(n.body, leaves, ops)
+        ops.append("if")
+        c = linearise(n.test, leaves, ops)
+        ops.append("else")
+        return "(ifexp " + b + " " + c + " " + linearise(n.orelse, leaves, ops) + ")"
+    leaves.append(n)
+    return "_"
+
+
+def _skel(n: ast.AST) -> str:
+    return linearise(n, [], [])
+
+
+def regrouping_class(want: ast.AST, got: ast.AST) -> tuple[str, str, str]:
+    """which of the constraint grammar's precedence differences regrouped the skeleton (first one found)"""
     w, g = want, got
-    while True:
-        if isinstance(w, ast.BoolOp) and isinstance(g, ast.BoolOp) and type(w.op) is type(g.op) \
-                and len(w.values) == len(g.values):
-            diff = [(a, b) for a, b in zip(w.values, g.values) if ast.dump(a) != ast.dump(b)]
-            if len(diff) != 1:
-                return None if not diff else ("toplevel-several-regroupings", _desc(w), _desc(g))
-            w, g = diff[0]
-            continue
-        break
-    cls = None
+    while isinstance(w, ast.BoolOp) and isinstance(g, ast.BoolOp) and type(w.op) is type(g.op) \
+            and len(w.values) == len(g.values):
+        diff = [(a, b) for a, b in zip(w.values, g.values) if _skel(a) != _skel(b)]
+        if not diff:
+            break
+        w, g = diff[0]
+    cls = "toplevel-regrouped-otherwise"
     if isinstance(w, ast.IfExp) != isinstance(g, ast.IfExp):
         cls = "toplevel-conditional-expression-regrouped"
     else:
@@ -215,9 +243,37 @@ def constraint_toplevel_class(want: ast.AST, got: ast.AST) -> Optional[tuple[str
             cls = "toplevel-not-binds-tighter-than-comparison"
         elif isinstance(w, ast.Compare) and isinstance(g, ast.Compare) and len(w.ops) > len(g.ops) == 1:
             cls = "toplevel-comparison-chain-split"
-    if cls is None:
-        return None
+        elif isinstance(w, ast.BoolOp) and isinstance(g, ast.BoolOp) and \
+                any(isinstance(x, ast.IfExp) for x in list(w.values) + list(g.values)):
+            cls = "toplevel-conditional-expression-regrouped"
     return cls, _desc(w), _desc(g)
+
+
+def constraint_diffs(want: ast.AST, got: ast.AST) -> list[tuple[str, str, str]]:
+    """all differences between CPython's reading of a constraint and the formula Fandango built:
+    a regrouping of the top-level skeleton (same operator sequence, same number of operands) is ONE
+    difference, classified; the operands are then compared pairwise"""
+    if ast.dump(want) == ast.dump(got):
+        return []
+    lw: list = []
+    ow: list = []
+    lg: list = []
+    og: list = []
+    sw, sg = linearise(want, lw, ow), linearise(got, lg, og)
+    if ow == og and len(lw) == len(lg):
+        out = []
+        if sw != sg:
+            out.append(regrouping_class(want, got))
+        for a, b in zip(lw, lg):
+            out += all_diffs(a, b)
+        return out
+    names = lambda n: {x.id for x in ast.walk(n) if isinstance(x, ast.Name)}  # noqa: E731
+    invented = sorted(names(got) - names(want))
+    if invented and any(isinstance(x, ast.IfExp) for x in ast.walk(want)):
+        # visitFormula_comparison unparses the LIST visitChildren returns for `X if C else Y`: one name `XCY`
+        return [("formula-comparison-conditional-operand-garbled", _desc(want),
+                 f"invented name(s) {invented} in {_desc(got)}")]
+    return all_diffs(want, got)
 
 
 # ---- FandangoLexer.g4's NUMBER has no `_` digit separators: at the top level of a spec, where statements
@@ -245,49 +301,91 @@ def underscore_split_reading(text: str) -> Optional[str]:
             if not head:
                 return None
             ln = lines[tk.start[0] - 1]
-            lines[tk.start[0] - 1] = ln[:tk.start[1]] + head + "\n" + tk.string[len(head):] + ln[tk.end[1]:]
+            # the rest is lexed as NAME (NUMBER NAME)*: `1_0.0_1` -> 1 | _0 | .0 | _1, each a statement of its own
+            rest = tk.string[len(head):]
+            pieces = re.findall(r"[A-Za-z_]\w*|(?:\d*\.\d+|\d+\.?)(?:[eE][+-]?\d+)?[jJ]?", rest)
+            if "".join(pieces) != rest:
+                return None
+            lines[tk.start[0] - 1] = ln[:tk.start[1]] + head + "\n" + "\n".join(pieces) + ln[tk.end[1]:]
             cut = True
     return "".join(lines) if cut else None
 
 
-def first_diff(w: Any, g: Any, parent: str = "", field: str = "") -> Optional[tuple[str, str, str]]:
-    """(signature, want, got) of the first difference in a parallel walk, or None"""
+def all_diffs(w: Any, g: Any, parent: str = "", field: str = "", out: Optional[list] = None) -> list[tuple[str, str, str]]:
+    """(signature, want, got) of EVERY difference of a parallel walk (outermost node of each); a node
+    pair with a recognised shape is one difference, and the walk continues below it only where the
+    rest of the pair still corresponds (`(a,)` vs `a`, `*a` vs `a`)"""
+    out = [] if out is None else out
+    if len(out) >= 8:
+        return out
     if isinstance(w, ast.AST) or isinstance(g, ast.AST):
         if isinstance(w, ast.AST) and isinstance(g, ast.AST) and ast.dump(w) == ast.dump(g):
-            return None
+            return out
         p = named_pattern(w, g)
         if p:
-            return p, _desc(w), _desc(g)
+            out.append((p, _desc(w), _desc(g)))
+            if p == "one-element-tuple-unwrapped":
+                all_diffs(w.elts[0], g, parent, field, out)
+            elif p == "star-dropped":
+                all_diffs(w.value, g, parent, field, out)
+            return out
         if type(w) is not type(g):
-            return f"want:{type(w).__name__}", _desc(w), _desc(g)
+            out.append((f"want:{type(w).__name__}", _desc(w), _desc(g)))
+            return out
         for f in w._fields:
-            d = first_diff(getattr(w, f, None), getattr(g, f, None), type(w).__name__, f)
-            if d:
-                return d
-        return None
+            all_diffs(getattr(w, f, None), getattr(g, f, None), type(w).__name__, f, out)
+        return out
     if isinstance(w, list) and isinstance(g, list):
+        if len(w) != len(g) and any(isinstance(x, ast.Lambda) for x in w):
+            # no visitLambdef: the default visitor returns the LIST [defaults…, body], which aggregateResult
+            # splices into the enclosing list (elements of a display, arguments of a call)
+            w2: list = []
+            for x in w:
+                if isinstance(x, ast.Lambda):
+                    w2 += list(x.args.defaults) + [d for d in x.args.kw_defaults if d is not None] + [x.body]
+                else:
+                    w2.append(x)
+            if len(w2) == len(g):
+                lam = next(x for x in w if isinstance(x, ast.Lambda))
+                out.append(("lambda-not-rebuilt", _desc(lam), f"its defaults and body spliced into the enclosing list ({len(g)} items)"))
+                w = w2
         for a, b in zip(w, g):
-            d = first_diff(a, b, parent, field)
-            if d:
-                return d
+            all_diffs(a, b, parent, field, out)
         if len(w) != len(g):
             sign = "-" if len(g) < len(w) else "+"
             extra = (w[len(g):] if len(g) < len(w) else g[len(w):])[0]
-            return f"{parent}.{field}:len{sign}", f"{len(w)} items", f"{len(g)} items ({_desc(extra)})"
-        return None
+            out.append((f"{parent}.{field}:len{sign}", f"{len(w)} items", f"{len(g)} items ({_desc(extra)})"))
+        return out
     if w != g or type(w) is not type(g):
-        return f"{parent}.{field}", repr(w)[:80], repr(g)[:80]
-    return None
+        out.append((f"{parent}.{field}", repr(w)[:80], repr(g)[:80]))
+    return out
+
+
+def first_diff(w: Any, g: Any) -> Optional[tuple[str, str, str]]:
+    d = all_diffs(w, g)
+    return d[0] if d else None
+
+
+def module_diffs(want: ast.AST, got: ast.AST) -> list[tuple[str, str, str]]:
+    dw, dg = docstrings(want), docstrings(got)
+    d = all_diffs(norm(want), norm(got))
+    if dw != dg:
+        d.append(("docstring-becomes-fstring", str(dw), str(dg)))
+    return d
 
 
 def compare_modules(want: ast.AST, got: ast.AST) -> Optional[tuple[str, str, str]]:
-    dw, dg = docstrings(want), docstrings(got)
-    d = first_diff(norm(want), norm(got))
-    if d:
-        return d
-    if dw != dg:
-        return "docstring-becomes-fstring", str(dw), str(dg)
-    return None
+    d = module_diffs(want, got)
+    return d[0] if d else None
+
+
+def dedup(ds: list[tuple[str, str, str]]) -> list[tuple[str, str, str]]:
+    seen, out = set(), []
+    for d in ds:
+        if d[0] not in seen:
+            seen.add(d[0])
+            out.append(d)
+    return out
 
 
 # ================================================================================================
@@ -361,15 +459,19 @@ def tv_code(text: str, parser: str) -> dict:
         except SyntaxError:
             # exec(code_text) raises SyntaxError: the spec is rejected (late), nothing is run
             return {"status": "rejected", "exc": "SyntaxError-in-code_text"}
-    d = compare_modules(want, got)
-    if d is None:
+    ds = dedup(module_diffs(want, got))
+    if not ds:
         return {"status": "ok"}
     alt = underscore_split_reading(text)
     if alt is not None:
         alt_tree = cpython_module(alt)
-        if alt_tree is not None and compare_modules(alt_tree, got) is None:
-            d = ("numeric-literal-underscore-splits-statement", d[1], d[2])
-    return {"status": "altered", "sig": d[0], "want": d[1], "got": d[2], "code_text": cs.code_text[:400]}
+        if alt_tree is not None:
+            # every difference that disappears against the lexer's reading is that ONE finding
+            rest = dedup(module_diffs(alt_tree, got))
+            if len(rest) < len(ds):
+                ds = [("numeric-literal-underscore-splits-statement", ds[0][1], ds[0][2])] + rest
+    return {"status": "altered", "sig": ds[0][0], "want": ds[0][1], "got": ds[0][2], "diffs": ds,
+            "code_text": cs.code_text[:400]}
 
 
 # ---- expressions with `<symbol>` holes ------------------------------------------------------------
@@ -529,12 +631,10 @@ def tv_embedded(site: str, marked: str, holes: list[str], parser: str, variant: 
     except SyntaxError:
         # eval(expression string) raises SyntaxError at first use: rejected (late), nothing is evaluated
         return {"status": "rejected", "exc": "SyntaxError-in-expression-string", "text": text}
-    d = first_diff(norm(want), norm(got))
-    if d is None:
+    ds = dedup(constraint_diffs(norm(want), norm(got)) if site == "constraint" else all_diffs(norm(want), norm(got)))
+    if not ds:
         return {"status": "ok", "text": text}
-    if site == "constraint":
-        d = constraint_toplevel_class(norm(want), norm(got)) or d
-    return {"status": "altered", "sig": d[0], "want": d[1], "got": d[2], "text": text}
+    return {"status": "altered", "sig": ds[0][0], "want": ds[0][1], "got": ds[0][2], "diffs": ds, "text": text}
 
 
 def _walk_nodes(node: Any) -> list:
@@ -776,11 +876,11 @@ def corpus_file(run: Run, path: str, text: str, parser: str, stats: dict, fail: 
             k, n = _exc(e)
             stats[f"py_{k}:{n}"] = stats.get(f"py_{k}:{n}", 0) + 1
             continue
-        d = compare_modules(want, got)
+        ds = dedup(module_diffs(want, got))
         run.case(["corpus-code", path, span[0]], True, None)
-        if d:
+        for d in ds:
             fail("code", d, {"kind": "code", "text": _dedent(frag), "parser": parser, "origin": f"{path}@{span[0]}"})
-        else:
+        if not ds:
             stats["py_ok"] = stats.get("py_ok", 0) + 1
     cp = ConstraintProcessor(Grammar.dummy())
     for cctx in pf.all_ctx(tree, P.ConstraintContext):
@@ -804,15 +904,13 @@ def corpus_file(run: Run, path: str, text: str, parser: str, stats: dict, fail: 
             if got is None:
                 stats["formulas_not_plain"] = stats.get("formulas_not_plain", 0) + 1
                 continue
-            d = first_diff(norm(want), norm(got))
-            if d:
-                d = constraint_toplevel_class(norm(want), norm(got)) or d
+            ds = dedup(constraint_diffs(norm(want), norm(got)))
             run.case(["corpus-formula", path, real_span(fd)], True, None)
-            if d:
+            for d in ds:
                 sp = real_span(fd)
                 fail("constraint", d, {"kind": "formula", "text": text[sp[0]:sp[1] + 1], "parser": parser,
                                        "origin": f"{path}@{sp[0]}"})
-            else:
+            if not ds:
                 stats["formulas_ok"] = stats.get("formulas_ok", 0) + 1
 
 
@@ -1049,7 +1147,7 @@ class Failures:
         self.count[sig] = self.count.get(sig, 0) + 1
         if sig in self.by_sig:
             return
-        if shrinker is not None:
+        if shrinker is not None and not any(k.get("signature") == sig for k in self.run.known):
             try:
                 small = shrinker(d[0])
                 if small:
@@ -1068,16 +1166,16 @@ class Failures:
             self.run.report(sig, what, rp)
 
 
-def sig_of_code(text: str, parser: str) -> Optional[str]:
+def sigs_of_code(text: str, parser: str) -> list[str]:
     r = tv_code(text, parser)
-    return r.get("sig") if r["status"] == "altered" else None
+    return [d[0] for d in r.get("diffs", [])] if r["status"] == "altered" else []
 
 
-def sig_of_embedded(site: str, fan_expr: str, parser: str, variant: int) -> Optional[str]:
+def sigs_of_embedded(site: str, fan_expr: str, parser: str, variant: int) -> list[str]:
     """re-derive markers from a plain spec expression: selectors become holes again"""
     marked, holes = mark_selectors(fan_expr)
     r = tv_embedded(site, marked, holes, parser, variant)
-    return r.get("sig") if r["status"] == "altered" else None
+    return [d[0] for d in r.get("diffs", [])] if r["status"] == "altered" else []
 
 
 SELECTOR = re.compile(r"\*?<\w+>(?:\s*\.\.?\s*<\w+>|\[\d+\])*")
@@ -1149,7 +1247,7 @@ def main(tier: str) -> int:
 
     # ---------------------------------------------------------------- (2) Lean tie
     rng = run.rng("core")
-    n_core = 500 if quick else 9000
+    n_core = 500 if quick else 4000
     batch: list = []
     texts = list(CORE_CORPUS) + [pygen.core_expr(rng, rng.choice([2, 3, 3, 4])) for _ in range(n_core)]
     seen = set()
@@ -1202,7 +1300,7 @@ def main(tier: str) -> int:
         def fail(site, d, rp):
             fails.add(site, d, rp)
         corpus_file(run, p, txt, "cpp" if quick else "python", stats, fail)
-        if quick and time.time() - t_corpus > 45:
+        if time.time() - t_corpus > (45 if quick else 330):     # wall-clock budget: fewer cases under load, never an alarm
             stats["corpus_cut_short_at"] = sources.index((p, txt))
             break
     run.coverage["corpus"] = dict(sorted(stats.items()))
@@ -1221,14 +1319,14 @@ def main(tier: str) -> int:
             probe_status[("block: " if nested else "top: ") + src.strip()[:60]] = st
             if r["status"] != "notpython":
                 run.case(["probe", text], True, None)
-            if r["status"] == "altered":
-                fails.add("code", (r["sig"], r["want"], r["got"]), {"kind": "code", "text": text, "parser": parser})
+            for d in r.get("diffs", []):
+                fails.add("code", d, {"kind": "code", "text": text, "parser": parser})
     run.coverage["probes_by_status"] = dict(sorted(pstat.items()))
     run.coverage["probes"] = probe_status
 
     # ---------------------------------------------------------------- (3c) generated programs, site A
     rng = run.rng("programs")
-    n_prog = 360 if quick else 9000
+    n_prog = 360 if quick else 4000
     status: dict[str, int] = {}
     feats: dict[str, int] = {}
     feats_ok: dict[str, int] = {}
@@ -1251,12 +1349,11 @@ def main(tier: str) -> int:
             feats[k] = feats.get(k, 0) + 1
             if r["status"] == "ok":
                 feats_ok[k] = feats_ok.get(k, 0) + 1
-        if r["status"] == "altered":
-            sig = r["sig"]
-            fails.add("code", (sig, r["want"], r["got"]), {"kind": "code", "text": text, "parser": parser},
-                      shrinker=lambda s, text=text, parser=parser: shrink(text, lambda t: sig_of_code(t, parser) == s,
+        for d in r.get("diffs", []):
+            fails.add("code", d, {"kind": "code", "text": text, "parser": parser},
+                      shrinker=lambda s, text=text, parser=parser: shrink(text, lambda t: s in sigs_of_code(t, parser),
                                                                           3.0 if quick else 10.0))
-        if quick and time.time() - t_gen > 50:
+        if time.time() - t_gen > (50 if quick else 400):
             status["cut_short_at"] = i
             break
     run.coverage["programs_by_status"] = dict(sorted(status.items()))
@@ -1265,7 +1362,7 @@ def main(tier: str) -> int:
 
     # ---------------------------------------------------------------- (3d) sites B–D
     rng = run.rng("embedded")
-    n_emb = 330 if quick else 9000
+    n_emb = 330 if quick else 4000
     estatus: dict[str, int] = {}
     t_emb = time.time()
     for i in range(n_emb):
@@ -1285,14 +1382,13 @@ def main(tier: str) -> int:
             continue
         fan, _ = render(marked, hp.hole_texts)
         run.case([site, fan, variant], len(fan) > 6, {"site": site, "expr": fan[:160], "status": st} if i < 6 else None)
-        if r["status"] == "altered":
-            sig = r["sig"]
-            fails.add(site, (sig, r["want"], r["got"]),
+        for d in r.get("diffs", []):
+            fails.add(site, d,
                       {"kind": site, "text": fan, "parser": parser, "variant": variant, "spec": r.get("text")},
                       shrinker=lambda s, fan=fan, site=site, parser=parser, variant=variant:
-                      shrink(fan, lambda t: sig_of_embedded(site, t.strip(), parser, variant) == s, 3.0 if quick else 10.0,
+                      shrink(fan, lambda t: s in sigs_of_embedded(site, t.strip(), parser, variant), 3.0 if quick else 10.0,
                              mode="eval") if "<" not in fan else None)
-        if quick and time.time() - t_emb > 35:
+        if time.time() - t_emb > (35 if quick else 330):
             estatus["cut_short_at"] = i
             break
     run.coverage["embedded_by_status"] = dict(sorted(estatus.items()))
